@@ -123,11 +123,32 @@ def writer_cases(scripts, tier, rnd):
                  "data": {"gen": "dense", "len": units * u, "seed": 2000 + i, "arch": "x86" if arch == "delta" else arch},
                  "fam": "delta_writer" if arch == "delta" else "bcj_writer", "unit": u, "si": i}
             cases.append(c)
+    # non-uniform concretisation: abstract slice size k -> bytes through a table, so that one script mixes large slices
+    # with 1..3 byte slices. With flushes this isolates tiny pieces in mid-stream after real data (LZMA2 chunk kinds
+    # LZMA, uncompressed, LZMA; a block / member that receives a few bytes after a flush).
+    tab_targets = [t for t in WRITER_TARGETS if t[0] in ("lzma2", "xz", "lzip", "lzma2mt", "lzipmt")]
+    for i, sc in enumerate(scripts):
+        if not any(op == "f" for (op, _) in sc):
+            continue
+        for t, (target, opts, cls) in enumerate(tab_targets):
+            if quick and (i + t) % 2 != 0:
+                continue
+            tab = WRITE_TABLES[(i + t) % len(WRITE_TABLES)]
+            ws = [(tab[k] if op == "w" else 0 if op == "e" else -1) for (op, k) in sc]
+            total = sum(x for x in ws if x > 0)
+            cases.append({"bin": "vh_part", "mode": "writer", "target": target, "opts": opts, "script": ws,
+                          "data": {"gen": "text", "len": total, "seed": 8000 + i, "arch": "x86"},
+                          "fam": target, "unit": "table%d" % ((i + t) % len(WRITE_TABLES)), "si": i})
     for j, c in enumerate(cases):
         c["id"] = f"w{j}"
     return cases
 
 
+WRITE_TABLES = [{1: 2, 2: 3000, 3: 70000, 4: 1, 5: 9000, 6: 200000, 7: 3, 8: 40000},
+                {1: 1, 2: 70000, 3: 3, 4: 5000, 5: 2, 6: 100000, 7: 66000, 8: 1},
+                {1: 3, 2: 200000, 3: 1, 4: 66000, 5: 2500, 6: 2, 7: 8192, 8: 4097}]
+# source chunk patterns that end the reader's filter calls at every offset relative to an instruction
+SWEEP_CHUNKS = [[3], [5, 2], [7, 1, 4], [6], [2, 9], [4, 8, 1], [11], [13, 3], [0], [4095, 7, 1], [10, 1, 1], [9]]
 READ_TABLES = [{0: 0, 1: 1, 2: 4096, 3: 4097, 99: 1 << 20}, {0: 0, 1: 13, 2: 4095, 3: 7, 99: 1 << 22},
                {0: 0, 1: 3, 2: 2, 3: 65537, 99: 1 << 21}]
 
@@ -167,6 +188,23 @@ def reader_cases(scripts, tier, rnd):
             else:
                 cases.append({"bin": "vh_filter", "kind": "bcj2", "policy": [0, 100, 40][i % 3], "reads": reads, "src_chunks": chunks,
                               "data": {"gen": "dense", "len": n, "seed": 6000 + i, "arch": "x86"}, "fam": "bcj2_reader", "si": i})
+    # call-boundary sweep of the BCJ readers: opcode-dense code (x86: E8 / E9 one to four bytes apart with every kind of
+    # high byte) read through small, varying source chunks, so that BCJReader's filter calls end at every offset
+    # relative to an opcode pair and coder state carried between calls (x86 prev_mask) decides the bytes
+    archs = ARCHS + ["x86", "x86"]
+    for i, sc in enumerate(scripts):
+        if quick and i % 3 != 0:
+            continue
+        arch = archs[i % len(archs)]
+        tab = READ_TABLES[i % len(READ_TABLES)]
+        reads = [tab[k] for (_, k) in sc]
+        if all(x == 0 for x in reads):
+            reads.append(4096)
+        if any(0 < x <= 3 for x in reads) and not any(x > 100 for x in reads):
+            reads.append(4095)
+        cases.append({"bin": "vh_filter", "kind": "bcj", "arch": arch, "start": 0, "reads": reads,
+                      "src_chunks": SWEEP_CHUNKS[(i // len(archs)) % len(SWEEP_CHUNKS)],
+                      "data": {"gen": "opdense", "len": [9000, 21000, 4100][i % 3], "seed": 9000 + i}, "fam": "bcj_reader", "si": i})
     for j, c in enumerate(cases):
         c["id"] = f"r{j}"
     return cases
